@@ -281,28 +281,6 @@ func setupC20(t *testing.T, r *vh.Report) *c20env {
 
 	expired := mint(t, "admin", "-1h") // issued by this server, unaltered, expiry one hour in the past
 
-	// a token that is valid when issued and used, and presented again after its lifetime lapsed
-	// (the lifetime is doubled until the fresh token could be used once: the machine may be busy)
-	var (
-		lapsing string
-		lt      *tokens.Token
-	)
-
-	for life := 3; ; life *= 2 {
-		lapsing = mint(t, "admin", fmt.Sprintf("%ds", life))
-
-		lt, err = tokens.Unwrap(lapsing, 0)
-		if err == nil {
-			if rsp = f.Do(srvfix.Request{Method: "GET", Path: "/admin/users/", Header: map[string]string{"Authorization": "Bearer " + lapsing, "Accept": "application/json"}}); rsp.Status == 200 {
-				break
-			}
-		}
-
-		if life > 60 {
-			t.Fatalf("short-lived token never accepted while fresh: %v", err)
-		}
-	}
-
 	// revoked: used once (so it is cached), then put on the revocation list
 	revoked := mint(t, "admin", "1h")
 
@@ -329,6 +307,30 @@ func setupC20(t *testing.T, r *vh.Report) *c20env {
 
 	if _, err := tokens.Unwrap(otherKey, 0); err == nil {
 		t.Fatal("token issued under another key validates: key switch did not take effect")
+	}
+
+	// a token that is valid when issued and used, and presented again after its lifetime lapsed. It is made last
+	// (Blacklist above purges the decrypted-token cache) so that it is still cached when it is presented again:
+	// the cached-token path has its own expiry check, and that is the one this form exercises
+	// (the lifetime is doubled until the fresh token could be used once: the machine may be busy)
+	var (
+		lapsing string
+		lt      *tokens.Token
+	)
+
+	for life := 3; ; life *= 2 {
+		lapsing = mint(t, "admin", fmt.Sprintf("%ds", life))
+
+		lt, err = tokens.Unwrap(lapsing, 0)
+		if err == nil {
+			if rsp = f.Do(srvfix.Request{Method: "GET", Path: "/admin/users/", Header: map[string]string{"Authorization": "Bearer " + lapsing, "Accept": "application/json"}}); rsp.Status == 200 {
+				break
+			}
+		}
+
+		if life > 60 {
+			t.Fatalf("short-lived token never accepted while fresh: %v", err)
+		}
 	}
 
 	// wait (watchdog-bounded) until the short-lived token has lapsed by the clock the server reads
@@ -479,7 +481,7 @@ func TestC20Real(t *testing.T) {
 
 	type realRoute struct {
 		rt    *router.Route
-		fl    router.VerifFlags
+		fl    router.VerifC20Flags
 		decl  declared
 		shape reqShape
 		reach bool
@@ -488,10 +490,10 @@ func TestC20Real(t *testing.T) {
 	routes := []*realRoute{}
 	adminForm := credForm{Name: "positive-control", Header: srvfix.Basic("admin", e.f.Password("admin")), ID: identity{Auth: authYes, User: "admin", Perms: e.perms["admin"]}}
 
-	for _, rt := range m.VerifRoutes() {
-		rt.VerifSwapHandler(recorder)
+	for _, rt := range m.VerifC32Routes() {
+		rt.VerifC20SwapHandler(recorder)
 
-		fl := rt.VerifFlags()
+		fl := rt.VerifC20Flags()
 		rr := &realRoute{rt: rt, fl: fl, decl: declared{AuthRequired: fl.MustAuthenticate || len(fl.Permissions) > 0, Perms: fl.Permissions, BodyCreds: fl.CheckCredentials}}
 		method := fl.Method
 
@@ -597,7 +599,7 @@ func TestC20Real(t *testing.T) {
 	}
 }
 
-func judgeReal(r *vh.Report, m *router.Router, fl router.VerifFlags, d declared, sh reqShape, reach bool, cf credForm) {
+func judgeReal(r *vh.Report, m *router.Router, fl router.VerifC20Flags, d declared, sh reqShape, reach bool, cf credForm) {
 	if cf.Body != "" && !(sh.Method == "POST" || sh.Method == "PUT" || sh.Method == "PATCH") {
 		return
 	}
@@ -758,7 +760,7 @@ func (g *genRun) one(seq []int, forms []credForm, costlySample bool) {
 	}
 
 	d := declOf(seq)
-	fl := rt.VerifFlags()
+	fl := rt.VerifC20Flags()
 	state := fmt.Sprintf("must=%v lw=%v can=%v cred=%v perms=%v", fl.MustAuthenticate, fl.Lightweight, fl.CanAuthenticate, fl.CheckCredentials, fl.Permissions)
 	g.r.Count("generated.declarations", 1)
 
@@ -935,7 +937,7 @@ func TestC20Generated(t *testing.T) {
 	r.Count("generated.exhaustive_declarations", int64(g.n))
 
 	// PRNG part
-	nRandom := vh.N(2000, 120000)
+	nRandom := vh.N(2000, 40000)
 	for k := 0; k < nRandom; k++ {
 		l := maxFull + 1 + rng.Intn(5-maxFull)
 		perm := rng.Perm(len(builderOps))[:l]
